@@ -323,7 +323,7 @@ def name_build_difference(program, impl_ok):
     for devs in itt.combinations(BOOK, n):
       if pref.validate(program, frozenset(devs))[0] == impl_ok:
         return '+'.join(devs)
-  return 'unexplained:' + '>'.join(o['kind'] for o in program)
+  return 'unexplained:' + '+'.join(sorted({o['kind'] for o in program}))
 
 
 def name_run_difference(program, records, got, err):
@@ -357,7 +357,7 @@ def name_run_difference(program, records, got, err):
           if i < len(program) and program[i]['kind'] in (
               'batch', 'assign', 'filter')):
         return '~' + '+'.join(devs)
-  return 'unexplained:' + '>'.join(o['kind'] for o in program)
+  return 'unexplained:' + '+'.join(sorted({o['kind'] for o in program}))
 
 
 # ---- one program -------------------------------------------------------------
